@@ -49,7 +49,7 @@ Print Assumptions C20_idempotent_union_free.
    tables on every run.  (Before the repair of finding F20 this was refuted by 'abc' -> set[str] etc.) *)
 Definition C20_full_statement : Prop :=
   forall (W : world) (sac : bool) (t : ty) (v v' : val),
-    scalar_based t = true -> coerce live W sac t v = Ok v' -> nss no_pairs v v' = true.
+    scalar_based t = true -> coerce live W sac t v = Ok v' -> nss live no_pairs v v' = true.
 Theorem C20_full : C20_full_statement.
 Proof. intros W sac t v v' Ht. exact (live_nss_full W sac t Ht v v'). Qed.
 Print Assumptions C20_full.
